@@ -155,7 +155,13 @@ func c20BackToBack(w *core.WorkerCtx, rng *rand.Rand) {
 				return
 			}
 			path := filepath.Join(dir, fmt.Sprintf("w%d", i))
-			h := fileoperations.New(fileoperations.Config{WalletPath: path, WalletPasswd: hex.EncodeToString(key), WalletPemPath: path + ".pem"}, sealer)
+			// the wallets of one directory are named the way operators name them: numbered, by extension, with several
+			// dots, without any; every second round the names differ only in what follows their last dot
+			pemPath := path + ".pem"
+			if round%2 == 1 {
+				pemPath = filepath.Join(dir, []string{"node.1", "node.2", "wallet.pem", "wallet.key", "plain", "a.b.c", "a.b.d", ".hidden"}[i%8])
+			}
+			h := fileoperations.New(fileoperations.Config{WalletPath: path, WalletPasswd: hex.EncodeToString(key), WalletPemPath: pemPath}, sealer)
 			if h.SaveWallet(&w0) != nil || h.SaveToPem(&w0) != nil {
 				continue
 			}
